@@ -104,6 +104,21 @@ def calls(t, probes, extra_weids=(999983,), lite=False):
         yield C("degrees %r" % q, lambda h, q=q: (t.get_page_indegree(q), t.get_page_outdegree(q), t.get_page_degree(q),
                                                   t.get_page_indegree(q, weighted=True), t.get_page_outdegree(q, weighted=True),
                                                   t.get_page_degree(q, weighted=True)))
+    # the same lookups with the LRU given as text (the API encodes it with the index's encoding)
+    enc = getattr(t, "encoding", "utf-8") or "utf-8"
+    for q in list(probes):
+        try:
+            qt = q.decode(enc)
+            if qt.encode(enc) != q:
+                continue
+        except Exception:
+            continue
+        yield C("retrieve_webentity text %r" % q, lambda h, qt=qt: t.retrieve_webentity(qt))
+        yield C("retrieve_prefix text %r" % q, lambda h, qt=qt: t.retrieve_prefix(qt))
+        yield C("get_potential_prefix text %r" % q, lambda h, qt=qt: t.get_potential_prefix(qt))
+        yield C("get_webentity_by_prefix text %r" % q, lambda h, qt=qt: t.get_webentity_by_prefix(qt))
+        yield C("get_page_links text %r" % q, lambda h, qt=qt: unordered(t.get_page_links(qt)))
+        yield C("degrees text %r" % q, lambda h, qt=qt: (t.get_page_indegree(qt), t.get_page_outdegree(qt), t.get_page_degree(qt)))
     targets = [(w, ps) for w, ps in sorted(wes.items())]
     if targets:
         targets.append((extra_weids[0], targets[0][1]))  # unknown id with existing prefixes
@@ -132,6 +147,23 @@ def calls(t, probes, extra_weids=(999983,), lite=False):
         yield C("inlinks_iter " + tag, lambda h, w=w, ps=ps: unordered(list(drain(t.get_webentity_inlinks_iter(w, ps), h))))
         yield C("we degrees " + tag, lambda h, w=w, ps=ps: (t.get_webentity_indegree(w, ps), t.get_webentity_outdegree(w, ps), t.get_webentity_degree(w, ps)))
         yield C("page_nodes_iter " + tag, lambda h, w=w, ps=ps: unordered([l for _, l in t.webentity_page_nodes_iter(w, ps)]))
+        try:
+            pst = [p_.decode(enc) for p_ in ps]
+            if [x.encode(enc) for x in pst] != list(ps):
+                pst = None
+        except Exception:
+            pst = None
+        if pst is not None:
+            # the same webentity queried with its prefixes given as text
+            yield C("get_webentity_pages text " + tag, lambda h, w=w, pst=pst: unordered([(x["lru"], x["crawled"]) for x in t.get_webentity_pages(w, pst)]))
+            yield C("most_linked text " + tag, lambda h, w=w, pst=pst: [(x["lru"], x["indegree"]) for x in t.get_webentity_most_linked_pages(w, pst, pages_count=3)])
+            yield C("children text " + tag, lambda h, w=w, pst=pst: unordered(t.get_webentity_child_webentities(w, pst)))
+            yield C("parents text " + tag, lambda h, w=w, pst=pst: unordered(t.get_webentity_parent_webentities(w, pst)))
+            yield C("pagelinks text " + tag, lambda h, w=w, pst=pst: unordered(t.get_webentity_pagelinks(w, pst, include_inbound=True)))
+            yield C("outlinks text " + tag, lambda h, w=w, pst=pst: unordered(list(t.get_webentity_outlinks(w, pst))))
+            yield C("inlinks text " + tag, lambda h, w=w, pst=pst: unordered(list(t.get_webentity_inlinks(w, pst))))
+            yield C("paginate_pages text %s k=None co=False" % tag, lambda h, w=w, pst=pst: walk_pages(t, w, pst, None, False, h))
+            yield C("paginate_pagelinks text %s c=None TrueTrue" % tag, lambda h, w=w, pst=pst: walk_links(t, w, pst, None, True, True, h))
         for k in (1, 2, 3, 7, None):
             for co in (False, True):
                 yield C("paginate_pages %s k=%s co=%s" % (tag, k, co), lambda h, w=w, ps=ps, k=k, co=co: walk_pages(t, w, ps, k, co, h))
